@@ -154,3 +154,23 @@ def simulate_par(module, cfg, wd, procs, num, depth, seed, timeout=1800):
         rs = list(ex.map(lambda k: simulate(module, cfg, wd, num, depth, seed * 1000 + k, k, timeout), range(procs)))
     return {'hists': [h for r in rs for h in r['hists']], 'states': sum(r['states'] for r in rs),
             'wall': max(r['wall'] for r in rs)}
+
+
+def apalache(module, init, inv, length, wd, timeout=600):
+    """One `apalache-mc check` run (bounded by `timeout`): returns 'ok' (no error up to the length), 'violated'
+    (a counterexample was found) or 'unavailable: <reason>' when the tool itself could not run."""
+    out_dir = os.path.join(wd, f'apalache_{init}_{inv}_{length}')
+    shutil.rmtree(out_dir, ignore_errors=True)
+    try:
+        p = subprocess.run(['apalache-mc', 'check', f'--init={init}', f'--inv={inv}', f'--length={length}', f'--out-dir={out_dir}',
+                            module], cwd=SPEC, capture_output=True, text=True, timeout=timeout)
+    except (OSError, subprocess.TimeoutExpired) as e:
+        return f'unavailable: {type(e).__name__}'
+    finally:
+        shutil.rmtree(out_dir, ignore_errors=True)
+    out = p.stdout + p.stderr
+    if 'The outcome is: NoError' in out:
+        return 'ok'
+    if 'The outcome is: Error' in out or 'violat' in out.lower():
+        return 'violated'
+    return 'unavailable: ' + (out.strip().splitlines()[-1][:200] if out.strip() else f'exit {p.returncode}')
